@@ -30,7 +30,7 @@ impl Canon {
 }
 
 /// `model prog.. | sched.. | step ; step ; ..` with each step `site a b site a b ..`
-pub fn case_line(model: &str, prog: &[i64], sched: &[usize], steps: &[Vec<(u32, i64, i64)>]) -> String {
+pub fn case_line<A: std::fmt::Display, B: std::fmt::Display>(model: &str, prog: &[i64], sched: &[usize], steps: &[Vec<(u32, A, B)>]) -> String {
     let mut s = String::new();
     s.push_str(model);
     for p in prog {
